@@ -139,6 +139,11 @@ def coredataSave {α} (c : α) : List (Effect α) :=
 def cmdlineSave {α} (c : α) : List (Effect α) :=
   atomicWrite pCmdlineTmp pCmdline c
 
+/-- the rollback of `MesonApp._generate`'s `except` handler (msetup.py:348-353) when a configuration fails after
+    coredata was dumped and `coredata.dat.prev` exists: one `os.replace(.prev, coredata.dat)` -/
+def restorePrev {α} : List (Effect α) :=
+  [.replace pCoredataPrev pCoredata]
+
 /-- `with open(p, 'w') as f: dump(f)` — build.save (build.dat); any in-place writer -/
 def inPlaceWrite {α} (p : Path) (c : α) : List (Effect α) :=
   [.openW p, .write p, .close p c]
@@ -205,8 +210,9 @@ inductive Cmd where
   deriving DecidableEq, Repr
 
 /-- the property's acceptance condition on a recovery verdict: recovery works and every option has its
-    pre-command value or the one the command was setting.  `mf`: the directory is configured with a machine file
-    (then re-applying only the -D options loses the values that came from the file).  For a first `setup` there is
+    pre-command value or the one the command was setting.  `mf`: some option values of the directory live only in
+    coredata.dat — they came from a machine file or from the environment of the first setup — so re-applying only
+    the -D options of cmd_line.txt loses them.  For a first `setup` there is
     no pre-command state: the user re-issues the same command line (machine file included), so a fresh
     configuration *is* the new one. -/
 def acceptable (c : Cmd) (mf : Bool) : Verdict Gen → Bool
@@ -219,7 +225,7 @@ def acceptable (c : Cmd) (mf : Bool) : Verdict Gen → Bool
 structure Scenario where
   name : String
   cmd : Cmd
-  machineFile : Bool := false
+  coredataOnly : Bool := false
   init : List (Path × FileSt Gen)
   trace : List (Effect Gen)
 
@@ -228,6 +234,6 @@ def Scenario.fs0 (sc : Scenario) : FS Gen := FS.ofList sc.init
 /-- crash states of the scenario whose recovery is not acceptable, as (index in `crashStates`, verdict) -/
 def badPoints (sc : Scenario) : List (Nat × Verdict Gen) :=
   ((crashStates sc.fs0 sc.trace).zipIdx.filterMap
-    (fun (s, i) => let v := recover s; if acceptable sc.cmd sc.machineFile v then none else some (i, v)))
+    (fun (s, i) => let v := recover s; if acceptable sc.cmd sc.coredataOnly v then none else some (i, v)))
 
 end MesonModel.Crash
